@@ -123,8 +123,8 @@ PROPS["C15"] = {"units": [
 PROPS["C14"] = {"units": [
     plain_unit("regress", "vfilter", "^TestRegressC14", overlay="full"),
     rapid_unit("delay-filter-free", "vfilter", "^TestC14DelayFilter$", 400, 16 * 3000, overlay="full"),
-    rapid_unit("router-delay-e2e", "vnete2e", "^TestC14RouterDelay$", 120, 16 * 800, overlay="plain"),
-    rapid_unit("nested-router-delay", "vnete2e", "^TestC14NestedDelay$", 60, 16 * 500, overlay="plain"),
+    rapid_unit("router-delay-e2e", "vnete2e", "^TestC14RouterDelay$", 120, 16 * 800, overlay="plain", shrinktime="3s"),
+    rapid_unit("nested-router-delay", "vnete2e", "^TestC14NestedDelay$", 60, 16 * 500, overlay="plain", shrinktime="3s"),
     rapid_unit("delay-filter-schedules", "vfilter", "^TestC14DelaySchedules$", 300, 16 * 2500, overlay="full"),
 ]}
 
